@@ -5,14 +5,21 @@ set -e
 export GOFLAGS=-mod=mod GOPROXY=off GOSUMDB=off GOTOOLCHAIN=local
 export PATH=/opt/veriftools/go1.26.8/bin:$PATH
 OUT=$1
-mkdir -p "$OUT" /verif/.cache
-cd /verif
-if [ ! -x /verif/.cache/yieldify ] || [ /verif/tools/yieldify/main.go -nt /verif/.cache/yieldify ]; then
-  go build -o /verif/.cache/yieldify ./tools/yieldify
+ROOT="$(cd "$(dirname "$0")/.." && pwd)"
+REPO="${VERIF_REPO:-/repo}"
+mkdir -p "$OUT" "$ROOT/.cache"
+cd "$ROOT"
+if [ ! -x "$ROOT/.cache/yieldify" ] || [ "$ROOT/tools/yieldify/main.go" -nt "$ROOT/.cache/yieldify" ]; then
+  go build -o "$ROOT/.cache/yieldify" ./tools/yieldify
 fi
 rm -rf "$OUT/src"; mkdir -p "$OUT/src"
-/verif/.cache/yieldify -repo /repo -config /verif/yieldify.json -out "$OUT/src" -hooks /verif/hooks >"$OUT/yieldify.log" 2>&1 || { cat "$OUT/yieldify.log"; exit 2; }
+"$ROOT/.cache/yieldify" -repo "$REPO" -config "$ROOT/yieldify.json" -out "$OUT/src" -hooks "$ROOT/hooks" >"$OUT/yieldify.log" 2>&1 || { cat "$OUT/yieldify.log"; exit 2; }
+MODFILE=""
+if [ "$REPO" != "/repo" ]; then
+  sed "s#=> /repo#=> $REPO#" "$ROOT/go.mod" > "$OUT/go.mod"; cp "$ROOT/go.sum" "$OUT/go.sum"
+  MODFILE="-modfile=$OUT/go.mod"
+fi
 RACE=""
 BIN="$OUT/harness.test"
 if [ "$2" = "race" ]; then RACE="-race"; BIN="$OUT/harness.race.test"; fi
-go test -c $RACE -tags verif -overlay "$OUT/src/overlay.json" -o "$BIN" ./harness 2>"$OUT/build.log" || { cat "$OUT/build.log"; exit 2; }
+go test -c $RACE $MODFILE -tags verif -overlay "$OUT/src/overlay.json" -o "$BIN" ./harness 2>"$OUT/build.log" || { cat "$OUT/build.log"; exit 2; }
